@@ -54,6 +54,24 @@ func (vc *FuncVC) val(st *State, fr *Frame, v ssa.Value) any {
 	case *ssa.Builtin:
 		return x
 	case *ssa.Global:
+		// a package-level variable of another package (context.Canceled, io.EOF, ...): a cell holding an
+		// unconstrained, stable value; error-typed globals are non-nil
+		if x.Pkg != nil && x.Pkg.Pkg != vc.eng.pkg.Types {
+			pt := x.Type().Underlying().(*types.Pointer).Elem()
+			so := vc.w.sortOf(pt)
+			if so != "Opaque" && so != "Tuple" {
+				name := "glob_" + mangle(x.Pkg.Pkg.Path()+"_"+x.Name())
+				vc.w.declare(name, fmt.Sprintf("(declare-const %s Int)\n(assert (< %s 0))\n(declare-const %s_val %s)", name, name, name, so))
+				hn, hs := cellHeap(so)
+				cur := st.heapGet(hn, hs)
+				st.assume(eq(sel(cur, name), name+"_val"))
+				if so == SIface && types.Implements(pt, errorIface()) {
+					st.assume(not(eq(name+"_val", "nilI")))
+				}
+				vc.trusted["package-level variables of other packages hold stable values (never reassigned)"] = true
+				return V{name, SInt, x.Type()}
+			}
+		}
 		vc.unsupportedf("global variable %s", x.Name())
 		panic(abortPath{"global"})
 	}
@@ -1118,4 +1136,8 @@ func intSubrange(a, b types.Type) bool {
 		return wa < wb
 	}
 	return false
+}
+
+func errorIface() *types.Interface {
+	return types.Universe.Lookup("error").Type().Underlying().(*types.Interface)
 }
